@@ -23,7 +23,7 @@ M_POST == <<80,79,83,84>>
 M_PUT == <<80,85,84>>
 
 \* ---------------- transfer codings: gzip / chunked / gzip,chunked, in that order, nothing else ----------------
-Codings(v) == SelectSeq([i \in 1..Len(SplitOn(v, 44, 1, 1)) |-> Trim(SplitOn(v, 44, 1, 1)[i])], LAMBDA c : c # <<>>)
+Codings(v) == SelectSeq([i \in 1..Len(Split(v, 44)) |-> Trim(Split(v, 44)[i])], LAMBDA c : c # <<>>)
 TE(fields) ==
   LET vs == GetAll(fields, N_TE) IN
   IF vs = <<>> THEN [ok |-> TRUE, gzip |-> FALSE, chunked |-> FALSE, free |-> FALSE]
@@ -48,14 +48,14 @@ CookiePairs(segs, acc) ==
 RECURSIVE CookieFields(_, _)
 CookieFields(vals, acc) ==
   IF vals = <<>> THEN [ok |-> TRUE, pairs |-> acc]
-  ELSE LET r == CookiePairs(SplitOn(Head(vals), 59, 1, 1), acc) IN IF r.ok THEN CookieFields(Tail(vals), r.pairs) ELSE r
+  ELSE LET r == CookiePairs(Split(Head(vals), 59), acc) IN IF r.ok THEN CookieFields(Tail(vals), r.pairs) ELSE r
 \* later duplicates override earlier ones: the map as a set of pairs keyed by name
 CookieMap(pairs) == { <<pairs[i][1], pairs[i][2]>> : i \in { j \in 1..Len(pairs) : \A k \in (j+1)..Len(pairs) : pairs[k][1] # pairs[j][1] } }
 
 \* ---------------- content type: first token before ';' against the table, case-sensitive (pinned by tests/request.rs) ----------------
 MediaTypes == (<<116,101,120,116,47,99,115,115>> :> "Css") @@ (<<116,101,120,116,47,99,115,118>> :> "Csv") @@ (<<116,101,120,116,47,101,118,101,110,116,45,115,116,114,101,97,109>> :> "EventStream") @@ (<<97,112,112,108,105,99,97,116,105,111,110,47,120,45,119,119,119,45,102,111,114,109,45,117,114,108,101,110,99,111,100,101,100>> :> "FormUrlEncoded") @@ (<<105,109,97,103,101,47,103,105,102>> :> "Gif") @@ (<<116,101,120,116,47,104,116,109,108>> :> "Html") @@ (<<116,101,120,116,47,106,97,118,97,115,99,114,105,112,116>> :> "JavaScript") @@ (<<105,109,97,103,101,47,106,112,101,103>> :> "Jpeg") @@ (<<97,112,112,108,105,99,97,116,105,111,110,47,106,115,111,110>> :> "Json") @@ (<<116,101,120,116,47,109,97,114,107,100,111,119,110>> :> "Markdown") @@ (<<109,117,108,116,105,112,97,114,116,47,102,111,114,109,45,100,97,116,97>> :> "MultipartForm") @@ (<<>> :> "None") @@ (<<97,112,112,108,105,99,97,116,105,111,110,47,111,99,116,101,116,45,115,116,114,101,97,109>> :> "OctetStream") @@ (<<97,112,112,108,105,99,97,116,105,111,110,47,112,100,102>> :> "Pdf") @@ (<<116,101,120,116,47,112,108,97,105,110>> :> "PlainText") @@ (<<105,109,97,103,101,47,112,110,103>> :> "Png") @@ (<<105,109,97,103,101,47,115,118,103,43,120,109,108>> :> "Svg")
 CType(ct) == IF ct = <<>> THEN [v |-> "None", raw |-> <<>>]
-             ELSE LET tok == SplitOn(ct[1], 59, 1, 1)[1] IN
+             ELSE LET tok == Split(ct[1], 59)[1] IN
                   IF tok \in DOMAIN MediaTypes THEN [v |-> MediaTypes[tok], raw |-> <<>>] ELSE [v |-> "String", raw |-> ct[1]]
 
 \* ---------------- the whole classification ----------------
